@@ -113,12 +113,25 @@ func (e *explorer) runOnce(prefix []int, et []int8, ek []uint8) *vsched.Exec {
 	return x
 }
 
+// altCost is the deviation cost of taking alternative alt at point p: switching away from a
+// runnable thread is a preemption (CHESS); letting a thread that has just yielded run on at
+// once - spinning instead of giving way - is charged too, otherwise every iteration of a spin
+// loop doubles the schedule tree at no cost. All other switches (blocked, finished, giving way
+// at a yield) are free.
+func altCost(p *vsched.PointRec, alt int) int {
+	if p.RunningEn && alt != 0 {
+		return 1
+	}
+	if p.SelfIdx >= 0 && alt == int(p.SelfIdx) {
+		return 1
+	}
+	return 0
+}
+
 func preemptionsBefore(x *vsched.Exec, i int) int {
 	n := 0
 	for j := 0; j < i; j++ {
-		if x.Choices[j] != 0 && x.Points[j].RunningEn {
-			n++
-		}
+		n += altCost(&x.Points[j], x.Choices[j])
 	}
 	return n
 }
@@ -250,17 +263,14 @@ func (e *explorer) explore(prefix []int, et []int8, ek []uint8, depth int) {
 	for i := len(prefix); i < limit; i++ {
 		p := x.Points[i]
 		e.res.ChoicePts++
-		cost := 0
+		base := 0
 		if e.opt.Bound >= 0 {
-			cost = preemptionsBefore(x, i)
-			if p.RunningEn {
-				cost++
-			}
-			if cost > e.opt.Bound {
-				continue
-			}
+			base = preemptionsBefore(x, i)
 		}
 		for alt := 1; alt < len(p.Enabled); alt++ {
+			if e.opt.Bound >= 0 && base+altCost(&p, alt) > e.opt.Bound {
+				continue
+			}
 			if depth == 0 && e.opt.NShards > 1 {
 				idx := e.topIdx
 				e.topIdx++
